@@ -229,7 +229,8 @@ fn gen_text(rng: &mut Rng, tier: Tier) -> Vec<u8> {
         4 => *rng.pick(&[255u64, 256, 257, 1023, 1024, 1025, 4095, 4096]),
         _ => rng.range(1, 40),
     } as usize;
-    let alphabet: [&str; 24] = ["a", "Z", "0", " ", "\n", "\\", "\\n", ":", "\0", "\r", "\t", "%s", "\u{e9}", "\u{3042}", "\u{1f600}", "\u{7f}", "\u{80}", "\u{7ff}", "\u{800}", "\u{ffff}", "\u{10000}", "stdout:", "cmd:stop\n", "\"" ];
+    let alphabet: [&str; 31] = ["a", "Z", "0", " ", "\n", "\\", "\\n", ":", "\0", "\r", "\t", "%s", "\u{e9}", "\u{3042}", "\u{1f600}", "\u{7f}", "\u{80}", "\u{7ff}", "\u{800}", "\u{ffff}", "\u{10000}", "stdout:", "cmd:stop\n", "\"",
+        "\u{feff}", "\u{fffd}", "{", "}", "{}", "%", "\u{10ffff}"];
     let mut out: Vec<u8> = Vec::new();
     while out.len() < len {
         let s = rng.pick(&alphabet).as_bytes();
